@@ -1667,6 +1667,569 @@ theorem papp_append (rest : List Value) : ∀ l : Value, PApp b (libProc "append
 
 end procs4
 
+/-! ## 9. procedure arguments: what the higher-order procedures need -/
+
+/-- the caller's frame is never looked at by the loop -/
+theorem applyLoop_env : ∀ (n : Nat) (σ : Store) (p : Value) (args : List Value) (env env' : Nat),
+    applyLoop n σ p args env = applyLoop n σ p args env'
+  | 0, _, _, _, _, _ => by simp only [applyLoop]
+  | n + 1, σ, p, args, env, env' => by
+    have ih := fun σ p args => applyLoop_env n σ p args env env'
+    unfold applyLoop
+    simp only [ih]
+
+theorem Applies.env_irrel {σ p args env r σ'} (h : Applies σ p args env r σ') (env' : Nat) :
+    Applies σ p args env' r σ' := by
+  obtain ⟨hr, N, h⟩ := h.out
+  exact ⟨hr, N, fun n hn => by
+    show applyLoop n σ p args env' = _
+    rw [applyLoop_env n σ p args env' env]; exact h n hn⟩
+
+theorem LibFrame.keep {σ σ' : Store} {b N : Nat} (h : LibFrame σ b) (hk : σ.Keeps b N σ') : LibFrame σ' b :=
+  h.of_frame_eq (hk.frames b h.lt (.inl rfl))
+
+/-- What a higher-order library procedure, entered when the store had `N` frames, needs from its
+procedure argument `f` on the argument lists in `dom`: in every store that satisfies the caller's
+invariant `K` — an invariant that the library's own steps (appending frames) cannot break — `f`
+can be applied, the application has an outcome (a value or an error: it terminates), it keeps the
+library frame and the frames allocated since the library procedure was entered (it cannot reach
+them), and after a normal return the invariant holds again. -/
+structure ProcArg (b N : Nat) (K : Store → Prop) (f : Value) (dom : List Value → Prop) : Prop where
+  proc : (procArity f).isSome
+  stable : ∀ σ σ', K σ → σ.DExt σ' → K σ'
+  app : ∀ σ args, K σ → N ≤ σ.frames.size → dom args →
+    ∃ r σ', (∀ env, Applies σ f args env r σ') ∧ σ.Keeps b N σ' ∧ (∀ v, r = .ok v → K σ')
+
+theorem ProcArg.mono {b N N' K f dom dom'} (h : ProcArg b N K f dom) (hN : N ≤ N')
+    (hd : ∀ args, dom' args → dom args) : ProcArg b N' K f dom' where
+  proc := h.proc
+  stable := h.stable
+  app σ args hK hs hdom := by
+    obtain ⟨r, σ', ha, hk, hK'⟩ := h.app σ args hK (Nat.le_trans hN hs) (hd args hdom)
+    exact ⟨r, σ', ha, ⟨hk.size, fun i hi hc => hk.frames i hi (hc.imp id fun h => Nat.le_trans hN h)⟩, hK'⟩
+
+/-- a native procedure that does not touch the frames is a good procedure argument wherever it
+has an outcome -/
+theorem ProcArg.builtin {b N : Nat} {bi : Builtin} {dom : List Value → Prop} (hb : bi ≠ .apply)
+    (ha : ∀ args, dom args → arityOk bi.arity.1 bi.arity.2 args.length = true)
+    (hr : ∀ σ args, dom args → NotFuel (Prim.applyPure σ bi args).1)
+    (hf : ∀ σ args, (Prim.applyPure σ bi args).2.frames = σ.frames) :
+    ProcArg b N (fun _ => True) (.builtin bi) dom where
+  proc := rfl
+  stable _ _ _ _ := trivial
+  app σ args _ _ hd :=
+    ⟨(Prim.applyPure σ bi args).1, (Prim.applyPure σ bi args).2,
+      fun _ => Applies.builtin hb (ha args hd) rfl (hr σ args hd),
+      ⟨by rw [hf]; exact Nat.le_refl _, fun i _ _ => by rw [hf]⟩, fun _ _ => trivial⟩
+
+/-- the frame of a call of a library procedure, described by its contents (so that the
+description survives any store change that keeps frames `b` and `ρ`) -/
+structure InCall (b ρ : Nat) (bs : List (String × Value)) (σ : Store) : Prop where
+  lib : LibFrame σ b
+  lt : b < ρ
+  frame : σ.frames[ρ]? = some { parent := some b, defs := bs }
+
+theorem InCall.scope {b ρ bs σ} (h : InCall b ρ bs σ) : Scope b ρ bs σ where
+  lib := h.lib
+  lt := getElem?_lt h.frame
+  sees y := by
+    rw [lookup_of_frame h.frame]
+    simp only [h.lt, if_true]
+
+theorem InCall.of_call {σ b} (h : LibFrame σ b) (formals : Formals) (args : List Value) :
+    InCall b σ.frames.size (paramDefs formals args) (callFrame σ b formals args) where
+  lib := h.ext (callFrame_ext σ b formals args).framesExt
+  lt := h.lt
+  frame := (callFrame_spec σ b formals args).2.2
+
+theorem InCall.keep {b ρ bs σ σ' N} (h : InCall b ρ bs σ) (hk : σ.Keeps b N σ') (hN : N ≤ ρ) : InCall b ρ bs σ' where
+  lib := h.lib.keep hk
+  lt := h.lt
+  frame := by rw [hk.frames ρ (getElem?_lt h.frame) (.inr hN)]; exact h.frame
+
+theorem InCall.ext {b ρ bs σ σ'} (h : InCall b ρ bs σ) (he : σ.FramesExt σ') : InCall b ρ bs σ' :=
+  h.keep (Keeps.of_framesExt he b 0) (Nat.zero_le _)
+
+/-- the frame of a parameterless procedure made inside such a call -/
+structure InThunk (b ρ ρ' : Nat) (bs : List (String × Value)) (σ : Store) : Prop where
+  call : InCall b ρ bs σ
+  lt : ρ < ρ'
+  frame : σ.frames[ρ']? = some { parent := some ρ, defs := [] }
+
+theorem InThunk.scope {b ρ ρ' bs σ} (h : InThunk b ρ ρ' bs σ) : Scope b ρ' bs σ where
+  lib := h.call.lib
+  lt := getElem?_lt h.frame
+  sees y := by
+    rw [lookup_of_frame h.frame]
+    simp only [List.lookup_nil, h.lt, if_true]
+    exact h.call.scope.sees y
+
+theorem InThunk.of_call {b ρ bs σ} (h : InCall b ρ bs σ) :
+    InThunk b ρ σ.frames.size bs (callFrame σ ρ ⟨[], none⟩ []) where
+  call := h.ext (callFrame_ext σ ρ _ _).framesExt
+  lt := getElem?_lt h.frame
+  frame := (callFrame_spec σ ρ ⟨[], none⟩ []).2.2
+
+theorem InThunk.keep {b ρ ρ' bs σ σ' N} (h : InThunk b ρ ρ' bs σ) (hk : σ.Keeps b N σ') (hN : N ≤ ρ) :
+    InThunk b ρ ρ' bs σ' where
+  call := h.call.keep hk hN
+  lt := h.lt
+  frame := by rw [hk.frames ρ' (getElem?_lt h.frame) (.inr (by have := h.lt; omega))]; exact h.frame
+
+/-- a body of two expressions: the first for effect, the second as the tail expression -/
+theorem Applies.closure_body2 {σ formals e₁ e₂ cenv args env v σ₁ r σ'}
+    (ha : arityOk formals.fixed.length formals.rest.isSome args.length = true)
+    (h₁ : Evals (callFrame σ cenv formals args) σ.frames.size e₁ (.ok v) σ₁)
+    (h₂ : TailRuns σ₁ σ.frames.size e₂ env r σ') :
+    Applies σ (.closure (.mk formals [] [e₁, e₂]) cenv) args env r σ' := by
+  have hlen := arityOk_le ha
+  have hs : ∀ {rt σ₂}, EvalsTail σ₁ σ.frames.size e₂ rt σ₂ →
+      AppliesScheme σ (.mk formals [] [e₁, e₂]) cenv args rt σ₂ := by
+    intro rt σ₂ ht
+    refine AppliesScheme.intro_ok (restArgs := args.drop formals.fixed.length)
+      (σ₁ := (bindFixed (σ.newFrame (some cenv)).2 σ.frames.size formals.fixed args).2)
+      (σ₂ := callFrame σ cenv formals args) ?_ ?_ ?_
+    · exact bindFixed_ok formals.fixed args _ _ hlen
+    · exact EvalsDefs.nil
+    · exact EvalsBody.cons h₁ (EvalsBody.last ht)
+  rcases h₂ with ⟨er, h, rfl⟩ | ⟨v, h, rfl⟩ | ⟨f, targs, tenv, σ₂, h, ht⟩
+  · exact Applies.closure_err ha (hs h)
+  · exact Applies.closure_value ha (hs h)
+  · rcases ht with ⟨er, hf, rfl⟩ | ⟨fv, σ₃, hf, ⟨er, hargs, rfl⟩ | ⟨vs, σ₄, hargs, ⟨hp, rfl, rfl⟩ | ⟨hp, hl⟩⟩⟩
+    · exact Applies.closure_tail_op_err ha (hs h) hf
+    · exact Applies.closure_tail_arg_err ha (hs h) hf hargs
+    · exact Applies.closure_tail_nonproc ha (hs h) hf hargs hp
+    · exact Applies.closure_tail ha (hs h) hf hargs hp hl
+
+theorem Applies.closure_body2_err {σ formals e₁ e₂ cenv args env er σ₁}
+    (ha : arityOk formals.fixed.length formals.rest.isSome args.length = true)
+    (h₁ : Evals (callFrame σ cenv formals args) σ.frames.size e₁ (.error er) σ₁) :
+    Applies σ (.closure (.mk formals [] [e₁, e₂]) cenv) args env (.error er) σ₁ := by
+  have hlen := arityOk_le ha
+  refine Applies.closure_err ha (AppliesScheme.intro_ok (restArgs := args.drop formals.fixed.length)
+      (σ₁ := (bindFixed (σ.newFrame (some cenv)).2 σ.frames.size formals.fixed args).2)
+      (σ₂ := callFrame σ cenv formals args) ?_ ?_ ?_)
+  · exact bindFixed_ok formals.fixed args _ _ hlen
+  · exact EvalsDefs.nil
+  · exact EvalsBody.cons_err h₁
+
+/-! ## 10. `map` -/
+
+/-- the applications of the procedure argument `f` (whoever the caller) -/
+abbrev AppOf (f : Value) : Store → List Value → Except SErr Value → Store → Prop :=
+  fun σ args r σ' => ∀ env, Applies σ f args env r σ'
+
+section traces
+variable {app : Store → List Value → Except SErr Value → Store → Prop} {ext : Store → Store → Prop}
+  (tr : ∀ {a b c}, ext a b → ext b c → ext a c)
+include tr
+
+theorem MapM.ext_left {σ₀ σ xs r σ'} (he : ext σ₀ σ) (h : MapM app ext σ xs r σ') : MapM app ext σ₀ xs r σ' := by
+  cases h with
+  | nil e => exact .nil (tr he e)
+  | cons_err e h e' => exact .cons_err (tr he e) h e'
+  | cons e h hr e' => exact .cons (tr he e) h hr e'
+
+theorem MapM.ext_right {σ xs r σ' σ''} (h : MapM app ext σ xs r σ') (he : ext σ' σ'') : MapM app ext σ xs r σ'' := by
+  cases h with
+  | nil e => exact .nil (tr e he)
+  | cons_err e h e' => exact .cons_err e h (tr e' he)
+  | cons e h hr e' => exact .cons e h hr (tr e' he)
+
+theorem FoldLM.ext_left {σ₀ σ acc xs r σ'} (he : ext σ₀ σ) (h : FoldLM app ext σ acc xs r σ') :
+    FoldLM app ext σ₀ acc xs r σ' := by
+  cases h with
+  | nil e => exact .nil (tr he e)
+  | cons_err e h e' => exact .cons_err (tr he e) h e'
+  | cons e h hr e' => exact .cons (tr he e) h hr e'
+
+theorem FoldLM.ext_right {σ acc xs r σ' σ''} (h : FoldLM app ext σ acc xs r σ') (he : ext σ' σ'') :
+    FoldLM app ext σ acc xs r σ'' := by
+  cases h with
+  | nil e => exact .nil (tr e he)
+  | cons_err e h e' => exact .cons_err e h (tr e' he)
+  | cons e h hr e' => exact .cons e h hr (tr e' he)
+
+end traces
+
+section hmap
+variable {b N : Nat} {K : Store → Prop} {f : Value}
+
+theorem map_run (t : Value) (ht : isPair t = false) : ∀ (xs : List Value) (σ : Store), LibFrame σ b → K σ →
+    N ≤ σ.frames.size → ProcArg b N K f (fun args => ∃ x ∈ xs, args = [x]) → ∀ env,
+    ∃ r σ', Applies σ (libProc "map" b) [f, withTail xs t] env (r.map (withTail · t)) σ' ∧
+      MapM (AppOf f) Store.DExt σ xs r σ' ∧ (∀ vs, r = .ok vs → K σ') := by
+  have test : ∀ (l : Value) ρ, PEval b ρ (paramDefs ⟨["proc", "list"], none⟩ [f, l]) (ca "pair?" [sy "list"])
+      (.ok (.bool (isPair l))) := fun l ρ =>
+    PEval.congr (PEval.call1 (k := fun v => .ok (.bool (isPair v))) (lkB .isPair) (by rfl) (PEval.var (by rfl))
+      fun _ _ => PApp.isPair) rfl
+  intro xs
+  induction xs with
+  | nil =>
+    intro σ hl hK hN hf env
+    have hc := InCall.of_call hl ⟨["proc", "list"], none⟩ [f, t]
+    obtain ⟨σ₂, h₂, e₂⟩ := test t _ _ hc.scope
+    have hc₂ := hc.ext e₂.framesExt
+    refine ⟨.ok [], σ₂, ?_, .nil ((callFrame_ext ..).dExt.trans (e₂.dExt)), fun _ _ =>
+      hf.stable _ _ hK ((callFrame_ext ..).dExt.trans (e₂.dExt))⟩
+    rw [libProc_map]
+    refine Applies.closure_simple (by rfl) (TailRuns.cond_false h₂ (by simp [ht]) ?_)
+    exact TailRuns.value (by intros; simp) (by intros; simp) (Evals.sym (hc₂.scope.var (by rfl)))
+  | cons x xs ih =>
+    intro σ hl hK hN hf env
+    have hc := InCall.of_call hl ⟨["proc", "list"], none⟩ [f, .pair x (withTail xs t)]
+    have e₁ := callFrame_ext σ b ⟨["proc", "list"], none⟩ [f, .pair x (withTail xs t)]
+    obtain ⟨σ₂, h₂, e₂⟩ := test (.pair x (withTail xs t)) _ _ hc.scope
+    have hc₂ := hc.ext e₂.framesExt
+    -- the operand of `proc`
+    have hcar : PArgs b σ.frames.size (paramDefs ⟨["proc", "list"], none⟩ [f, .pair x (withTail xs t)])
+        [ca "car" [sy "list"]] (.ok [x]) :=
+      PArgs.congr (PArgs.cons (PEval.call1 (lkB .car) (by rfl) (PEval.var (by rfl)) fun _ _ => PApp.car) PArgs.nil) rfl
+    obtain ⟨σ₃, h₃, e₃⟩ := hcar _ hc₂.scope
+    have d₃ : σ.DExt (enter σ₃) :=
+      (((e₁.dExt).trans (e₂.dExt)).trans (e₃.dExt)).trans (dExt_enter σ₃)
+    obtain ⟨r₁, σ₄, happ, hkeep, hK₄⟩ := hf.app (enter σ₃) [x] (hf.stable _ _ hK d₃)
+      (Nat.le_trans hN d₃.size) ⟨x, by simp, rfl⟩
+    have harg1 : Evals σ₂ σ.frames.size (ca "proc" [ca "car" [sy "list"]]) r₁ (leave σ₄) :=
+      Evals.call_loop (Evals.sym (hc₂.scope.var (by rfl))) h₃ hf.proc (happ _)
+    have hcons : Evals σ₂ σ.frames.size (sy "cons") (.ok (.builtin .cons)) σ₂ :=
+      Evals.sym (hc₂.scope.builtin .cons (by decide) (by rfl))
+    rw [libProc_map]
+    cases r₁ with
+    | error er =>
+      refine ⟨.error er, leave σ₄, ?_, .cons_err d₃ happ (dExt_leave σ₄), fun _ h => by cases h⟩
+      refine Applies.closure_simple (by rfl) (TailRuns.cond_true h₂ (by simp [isPair]) (TailRuns.call ?_))
+      exact .inr ⟨_, _, hcons, .inl ⟨er, EvalsArgs.cons_err harg1, rfl⟩⟩
+    | ok v =>
+      have hc₄ : InCall b σ.frames.size _ (leave σ₄) :=
+        (((hc₂.ext e₃.framesExt).ext (Store.framesExt_enter σ₃)).keep hkeep
+          (Nat.le_trans hN (Nat.le_refl _))).ext (Store.framesExt_leave σ₄)
+      have hK₄' : K (leave σ₄) := hf.stable _ _ (hK₄ v rfl) (dExt_leave σ₄)
+      -- the operands of the recursive call
+      have hrec : PArgs b σ.frames.size (paramDefs ⟨["proc", "list"], none⟩ [f, .pair x (withTail xs t)])
+          [sy "proc", ca "cdr" [sy "list"]] (.ok [f, withTail xs t]) :=
+        PArgs.congr (PArgs.cons (PEval.var (by rfl))
+          (PArgs.cons (PEval.call1 (lkB .cdr) (by rfl) (PEval.var (by rfl)) fun _ _ => PApp.cdr) PArgs.nil)) rfl
+      obtain ⟨σ₅, h₅, e₅⟩ := hrec _ hc₄.scope
+      have d₅ : (leave σ₄).DExt (enter σ₅) := (e₅.dExt).trans (dExt_enter σ₅)
+      have hN₅ : N ≤ (enter σ₅).frames.size :=
+        Nat.le_trans (Nat.le_trans (Nat.le_trans hN d₃.size) hkeep.size) d₅.size
+      obtain ⟨r₂, σ₆, happ₂, htr₂, hK₆⟩ := ih (enter σ₅) (hc₄.lib.ext d₅.framesExt)
+        (hf.stable _ _ hK₄' d₅) hN₅
+        (hf.mono (Nat.le_refl _) fun args ⟨y, hy, e⟩ => ⟨y, List.mem_cons_of_mem _ hy, e⟩) σ.frames.size
+      have harg2 : Evals (leave σ₄) σ.frames.size (ca "map" [sy "proc", ca "cdr" [sy "list"]])
+          (r₂.map (withTail · t)) (leave σ₆) :=
+        Evals.call_loop (Evals.sym (hc₄.scope.proc 16 (by rfl) (by rfl))) h₅ (procArity_libProc (i := 16) rfl)
+          (libProc_map b ▸ happ₂)
+      have htr : MapM (AppOf f) Store.DExt σ₄ xs r₂ (leave σ₆) :=
+        MapM.ext_left @Store.DExt.trans ((dExt_leave σ₄).trans d₅) (MapM.ext_right @Store.DExt.trans htr₂ (dExt_leave σ₆))
+      refine ⟨r₂.map (v :: ·), leave σ₆, ?_, .cons d₃ happ htr (Store.DExt.refl _), fun vs h => ?_⟩
+      · refine Applies.closure_simple (by rfl) (TailRuns.cond_true h₂ (by simp [isPair]) (TailRuns.call ?_))
+        cases r₂ with
+        | error er =>
+          exact .inr ⟨_, _, hcons, .inl ⟨er, EvalsArgs.cons_tail_err harg1 (EvalsArgs.cons_err harg2), rfl⟩⟩
+        | ok vs =>
+          refine .inr ⟨_, _, hcons, .inr ⟨_, _, EvalsArgs.cons harg1 (EvalsArgs.cons harg2 EvalsArgs.nil),
+            .inr ⟨rfl, ?_⟩⟩⟩
+          exact Applies.builtin (by decide) (by rfl) (applyPure_cons _ _ _) (NotFuel.ok _)
+      · cases r₂ with
+        | error er => cases h
+        | ok vs' => exact hf.stable _ _ (hK₆ vs' rfl) (dExt_leave σ₆)
+
+end hmap
+
+/-! ## 11. `for-each`, `fold-left`, `fold-right` -/
+
+section hfor
+variable {b N : Nat} {K : Store → Prop} {f : Value}
+
+theorem for_each_run (t : Value) (ht : isPair t = false) : ∀ (xs : List Value) (σ : Store), LibFrame σ b → K σ →
+    N ≤ σ.frames.size → ProcArg b N K f (fun args => ∃ x ∈ xs, args = [x]) → ∀ env,
+    ∃ r σ', Applies σ (libProc "for-each" b) [f, withTail xs t] env (r.map fun _ => Value.void) σ' ∧
+      MapM (AppOf f) Store.DExt σ xs r σ' ∧ (∀ vs, r = .ok vs → K σ') := by
+  have test : ∀ (l : Value) ρ, PEval b ρ (paramDefs ⟨["proc", "list"], none⟩ [f, l]) (ca "pair?" [sy "list"])
+      (.ok (.bool (isPair l))) := fun l ρ =>
+    PEval.congr (PEval.call1 (k := fun v => .ok (.bool (isPair v))) (lkB .isPair) (by rfl) (PEval.var (by rfl))
+      fun _ _ => PApp.isPair) rfl
+  intro xs
+  induction xs with
+  | nil =>
+    intro σ hl hK hN hf env
+    have hc := InCall.of_call hl ⟨["proc", "list"], none⟩ [f, t]
+    obtain ⟨σ₂, h₂, e₂⟩ := test t _ _ hc.scope
+    refine ⟨.ok [], σ₂, ?_, .nil ((callFrame_ext ..).dExt.trans e₂.dExt), fun _ _ =>
+      hf.stable _ _ hK ((callFrame_ext ..).dExt.trans e₂.dExt)⟩
+    rw [libProc_for_each]
+    exact Applies.closure_simple (by rfl) (TailRuns.cond_void h₂ (by simp [ht]))
+  | cons x xs ih =>
+    intro σ hl hK hN hf env
+    have hc := InCall.of_call hl ⟨["proc", "list"], none⟩ [f, .pair x (withTail xs t)]
+    have e₁ := callFrame_ext σ b ⟨["proc", "list"], none⟩ [f, .pair x (withTail xs t)]
+    obtain ⟨σ₂, h₂, e₂⟩ := test (.pair x (withTail xs t)) _ _ hc.scope
+    have hc₂ := hc.ext e₂.framesExt
+    -- the body of the `lambda ()` runs in a fresh frame under the frame of the call
+    have ht₂ := InThunk.of_call hc₂
+    have e₂' := callFrame_ext σ₂ σ.frames.size ⟨[], none⟩ []
+    have hcar : PArgs b σ₂.frames.size (paramDefs ⟨["proc", "list"], none⟩ [f, .pair x (withTail xs t)])
+        [ca "car" [sy "list"]] (.ok [x]) :=
+      PArgs.congr (PArgs.cons (PEval.call1 (lkB .car) (by rfl) (PEval.var (by rfl)) fun _ _ => PApp.car) PArgs.nil) rfl
+    obtain ⟨σ₃, h₃, e₃⟩ := hcar _ ht₂.scope
+    have d₃ : σ.DExt (enter σ₃) :=
+      (((e₁.dExt.trans e₂.dExt).trans e₂'.dExt).trans e₃.dExt).trans (Store.dExt_enter σ₃)
+    have hNρ : N ≤ σ.frames.size := hN
+    obtain ⟨r₁, σ₄, happ, hkeep, hK₄⟩ := hf.app (enter σ₃) [x] (hf.stable _ _ hK d₃)
+      (Nat.le_trans hN d₃.size) ⟨x, by simp, rfl⟩
+    have harg1 : Evals (callFrame σ₂ σ.frames.size ⟨[], none⟩ []) σ₂.frames.size (ca "proc" [ca "car" [sy "list"]])
+        r₁ (leave σ₄) :=
+      Evals.call_loop (Evals.sym (ht₂.scope.var (by rfl))) h₃ hf.proc (happ _)
+    rw [libProc_for_each]
+    cases r₁ with
+    | error er =>
+      refine ⟨.error er, leave σ₄, ?_, .cons_err d₃ happ (Store.dExt_leave σ₄), fun _ h => by cases h⟩
+      refine Applies.closure_simple (by rfl) (TailRuns.cond_true h₂ (by simp [isPair]) (TailRuns.call ?_))
+      exact .inr ⟨_, _, Evals.lambda, .inr ⟨[], _, EvalsArgs.nil, .inr ⟨rfl,
+        Applies.closure_body2_err (by rfl) harg1⟩⟩⟩
+    | ok v =>
+      have ht₄ : InThunk b σ.frames.size σ₂.frames.size _ (leave σ₄) :=
+        ((((ht₂.keep (Store.Keeps.of_framesExt e₃.framesExt b N) hNρ).keep
+          (Store.Keeps.of_framesExt (Store.framesExt_enter σ₃) b N) hNρ).keep hkeep hNρ).keep
+          (Store.Keeps.of_framesExt (Store.framesExt_leave σ₄) b N) hNρ)
+      have hK₄' : K (leave σ₄) := hf.stable _ _ (hK₄ v rfl) (Store.dExt_leave σ₄)
+      have hrec : PArgs b σ₂.frames.size (paramDefs ⟨["proc", "list"], none⟩ [f, .pair x (withTail xs t)])
+          [sy "proc", ca "cdr" [sy "list"]] (.ok [f, withTail xs t]) :=
+        PArgs.congr (PArgs.cons (PEval.var (by rfl))
+          (PArgs.cons (PEval.call1 (lkB .cdr) (by rfl) (PEval.var (by rfl)) fun _ _ => PApp.cdr) PArgs.nil)) rfl
+      obtain ⟨σ₅, h₅, e₅⟩ := hrec _ ht₄.scope
+      have hN₅ : N ≤ σ₅.frames.size :=
+        Nat.le_trans (Nat.le_trans (Nat.le_trans hN d₃.size) hkeep.size) e₅.size
+      obtain ⟨r₂, σ₆, happ₂, htr₂, hK₆⟩ := ih σ₅ (ht₄.call.lib.ext e₅.framesExt)
+        (hf.stable _ _ hK₄' e₅.dExt) hN₅
+        (hf.mono (Nat.le_refl _) fun args ⟨y, hy, e⟩ => ⟨y, List.mem_cons_of_mem _ hy, e⟩) env
+      have htr : MapM (AppOf f) Store.DExt σ₄ xs r₂ σ₆ :=
+        MapM.ext_left @Store.DExt.trans ((Store.dExt_leave σ₄).trans e₅.dExt) htr₂
+      refine ⟨r₂.map (v :: ·), σ₆, ?_, .cons d₃ happ htr (Store.DExt.refl _), fun vs h => ?_⟩
+      · have hres : (r₂.map (v :: ·)).map (fun _ => Value.void) = r₂.map fun _ => Value.void := by
+          cases r₂ <;> rfl
+        rw [hres]
+        refine Applies.closure_simple (by rfl) (TailRuns.cond_true h₂ (by simp [isPair]) (TailRuns.call ?_))
+        refine .inr ⟨_, _, Evals.lambda, .inr ⟨[], _, EvalsArgs.nil, .inr ⟨rfl,
+          Applies.closure_body2 (by rfl) harg1 (TailRuns.call ?_)⟩⟩⟩
+        exact .inr ⟨_, _, Evals.sym (ht₄.scope.proc 18 (by rfl) (by rfl)), .inr ⟨_, _, h₅,
+          .inr ⟨procArity_libProc (i := 18) rfl, libProc_for_each b ▸ happ₂⟩⟩⟩
+      · cases r₂ with
+        | error er => cases h
+        | ok vs' => exact hK₆ vs' rfl
+
+end hfor
+
+section hfold
+variable {b N : Nat} {K : Store → Prop} {f : Value}
+
+/-- how a left fold ends on the final tail `t` of its list: with the accumulator on `()`, with the
+`car` error on anything else -/
+def foldEnd (t : Value) (acc : Value) : Except SErr Value :=
+  if isNil t then .ok acc else .error typeErr
+
+theorem fold_left_run (t : Value) (ht : isPair t = false) : ∀ (xs : List Value) (σ : Store) (acc : Value),
+    LibFrame σ b → K σ → N ≤ σ.frames.size →
+    ProcArg b N K f (fun args => ∃ x ∈ xs, ∃ a, args = [x, a]) → ∀ env,
+    ∃ r σ', Applies σ (libProc "fold-left" b) [f, acc, withTail xs t] env (r.bind (foldEnd t)) σ' ∧
+      FoldLM (AppOf f) Store.DExt σ acc xs r σ' ∧ (∀ v, r = .ok v → K σ') := by
+  have test : ∀ (acc l : Value) ρ, PEval b ρ (paramDefs ⟨["f", "init", "seq"], none⟩ [f, acc, l])
+      (ca "null?" [sy "seq"]) (.ok (.bool (isNil l))) := fun acc l ρ =>
+    PEval.congr (PEval.call1 (k := fun v => .ok (.bool (isNil v))) (lkP 14) (procArity_libProc (i := 14) rfl)
+      (PEval.var (by rfl)) fun v _ => papp_null b v) rfl
+  intro xs
+  induction xs with
+  | nil =>
+    intro σ acc hl hK hN hf env
+    have hc := InCall.of_call hl ⟨["f", "init", "seq"], none⟩ [f, acc, t]
+    obtain ⟨σ₂, h₂, e₂⟩ := test acc t _ _ hc.scope
+    have hc₂ := hc.ext e₂.framesExt
+    rw [libProc_fold_left]
+    cases hn : isNil t with
+    | true =>
+      refine ⟨.ok acc, σ₂, ?_, .nil ((callFrame_ext ..).dExt.trans e₂.dExt), fun _ _ =>
+        hf.stable _ _ hK ((callFrame_ext ..).dExt.trans e₂.dExt)⟩
+      have : (Except.ok acc : Except SErr Value).bind (foldEnd t) = .ok acc := by simp [Except.bind, foldEnd, hn]
+      rw [this]
+      refine Applies.closure_simple (by rfl) (TailRuns.cond_true h₂ (by simp [hn]) ?_)
+      exact TailRuns.value (by intros; simp) (by intros; simp) (Evals.sym (hc₂.scope.var (by rfl)))
+    | false =>
+      -- the improper tail: `(car seq)` fails among the operands of the recursive call
+      have hcar : PEval b σ.frames.size (paramDefs ⟨["f", "init", "seq"], none⟩ [f, acc, t])
+          (ca "car" [sy "seq"]) (.error typeErr) :=
+        PEval.congr (PEval.call1 (lkB .car) (by rfl) (PEval.var (by rfl)) fun _ _ => PApp.car)
+          (by cases t <;> first | rfl | simp [isPair] at ht)
+      obtain ⟨σ₃, h₃, e₃⟩ := hcar _ hc₂.scope
+      have d₃ : σ.DExt σ₃ := ((callFrame_ext ..).dExt.trans e₂.dExt).trans e₃.dExt
+      refine ⟨.ok acc, σ₃, ?_, .nil d₃, fun _ _ => hf.stable _ _ hK d₃⟩
+      have : (Except.ok acc : Except SErr Value).bind (foldEnd t) = .error typeErr := by
+        simp [Except.bind, foldEnd, hn]
+      rw [this]
+      refine Applies.closure_simple (by rfl) (TailRuns.cond_false h₂ (by simp [hn]) (TailRuns.call ?_))
+      refine .inr ⟨_, _, Evals.sym (hc₂.scope.proc 19 (by rfl) (by rfl)), .inl ⟨_, ?_, rfl⟩⟩
+      refine EvalsArgs.cons_tail_err (Evals.sym (hc₂.scope.var (by rfl))) (EvalsArgs.cons_err ?_)
+      exact Evals.call_arg_err (Evals.sym (hc₂.scope.var (by rfl))) (EvalsArgs.cons_err h₃) hf.proc
+  | cons x xs ih =>
+    intro σ acc hl hK hN hf env
+    have hc := InCall.of_call hl ⟨["f", "init", "seq"], none⟩ [f, acc, .pair x (withTail xs t)]
+    have e₁ := callFrame_ext σ b ⟨["f", "init", "seq"], none⟩ [f, acc, .pair x (withTail xs t)]
+    obtain ⟨σ₂, h₂, e₂⟩ := test acc (.pair x (withTail xs t)) _ _ hc.scope
+    have hc₂ := hc.ext e₂.framesExt
+    have hops : PArgs b σ.frames.size (paramDefs ⟨["f", "init", "seq"], none⟩ [f, acc, .pair x (withTail xs t)])
+        [ca "car" [sy "seq"], sy "init"] (.ok [x, acc]) :=
+      PArgs.congr (PArgs.cons (PEval.call1 (lkB .car) (by rfl) (PEval.var (by rfl)) fun _ _ => PApp.car)
+        (PArgs.cons (PEval.var (by rfl)) PArgs.nil)) rfl
+    obtain ⟨σ₃, h₃, e₃⟩ := hops _ hc₂.scope
+    have d₃ : σ.DExt (enter σ₃) := ((e₁.dExt.trans e₂.dExt).trans e₃.dExt).trans (Store.dExt_enter σ₃)
+    obtain ⟨r₁, σ₄, happ, hkeep, hK₄⟩ := hf.app (enter σ₃) [x, acc] (hf.stable _ _ hK d₃)
+      (Nat.le_trans hN d₃.size) ⟨x, by simp, acc, rfl⟩
+    have harg : Evals σ₂ σ.frames.size (ca "f" [ca "car" [sy "seq"], sy "init"]) r₁ (leave σ₄) :=
+      Evals.call_loop (Evals.sym (hc₂.scope.var (by rfl))) h₃ hf.proc (happ _)
+    have hop : Evals σ₂ σ.frames.size (sy "fold-left") (.ok (libProc "fold-left" b)) σ₂ :=
+      Evals.sym (hc₂.scope.proc 19 (by rfl) (by rfl))
+    have hf₂ : Evals σ₂ σ.frames.size (sy "f") (.ok f) σ₂ := Evals.sym (hc₂.scope.var (by rfl))
+    rw [libProc_fold_left]
+    cases r₁ with
+    | error er =>
+      refine ⟨.error er, leave σ₄, ?_, .cons_err d₃ happ (Store.dExt_leave σ₄), fun _ h => by cases h⟩
+      refine Applies.closure_simple (by rfl) (TailRuns.cond_false h₂ (by simp [isNil]) (TailRuns.call ?_))
+      exact .inr ⟨_, _, hop, .inl ⟨er, EvalsArgs.cons_tail_err hf₂ (EvalsArgs.cons_err harg), rfl⟩⟩
+    | ok v =>
+      have hc₄ : InCall b σ.frames.size _ (leave σ₄) :=
+        (((hc₂.ext e₃.framesExt).ext (Store.framesExt_enter σ₃)).keep hkeep
+          (Nat.le_trans hN (Nat.le_refl _))).ext (Store.framesExt_leave σ₄)
+      have hK₄' : K (leave σ₄) := hf.stable _ _ (hK₄ v rfl) (Store.dExt_leave σ₄)
+      have hcdr : PArgs b σ.frames.size (paramDefs ⟨["f", "init", "seq"], none⟩ [f, acc, .pair x (withTail xs t)])
+          [ca "cdr" [sy "seq"]] (.ok [withTail xs t]) :=
+        PArgs.congr (PArgs.cons (PEval.call1 (lkB .cdr) (by rfl) (PEval.var (by rfl)) fun _ _ => PApp.cdr)
+          PArgs.nil) rfl
+      obtain ⟨σ₅, h₅, e₅⟩ := hcdr _ hc₄.scope
+      have hN₅ : N ≤ σ₅.frames.size :=
+        Nat.le_trans (Nat.le_trans (Nat.le_trans hN d₃.size) hkeep.size) e₅.size
+      obtain ⟨r₂, σ₆, happ₂, htr₂, hK₆⟩ := ih σ₅ v (hc₄.lib.ext e₅.framesExt)
+        (hf.stable _ _ hK₄' e₅.dExt) hN₅
+        (hf.mono (Nat.le_refl _) fun args ⟨y, hy, e⟩ => ⟨y, List.mem_cons_of_mem _ hy, e⟩) env
+      have htr : FoldLM (AppOf f) Store.DExt σ₄ v xs r₂ σ₆ :=
+        FoldLM.ext_left @Store.DExt.trans ((Store.dExt_leave σ₄).trans e₅.dExt) htr₂
+      refine ⟨r₂, σ₆, ?_, .cons d₃ happ htr (Store.DExt.refl _), hK₆⟩
+      refine Applies.closure_simple (by rfl) (TailRuns.cond_false h₂ (by simp [isNil]) (TailRuns.call ?_))
+      exact .inr ⟨_, _, hop, .inr ⟨_, _, EvalsArgs.cons hf₂ (EvalsArgs.cons harg h₅),
+        .inr ⟨procArity_libProc (i := 19) rfl, libProc_fold_left b ▸ happ₂⟩⟩⟩
+
+theorem fold_right_run : ∀ (xs : List Value) (σ : Store) (init : Value),
+    LibFrame σ b → K σ → N ≤ σ.frames.size →
+    ProcArg b N K f (fun args => ∃ x ∈ xs, ∃ a, args = [x, a]) → ∀ env,
+    ∃ r σ', Applies σ (libProc "fold-right" b) [f, init, Value.ofList xs] env r σ' ∧
+      FoldRM (AppOf f) Store.DExt σ init xs r σ' ∧ (∀ v, r = .ok v → K σ') ∧ σ.frames.size ≤ σ'.frames.size := by
+  have test : ∀ (init l : Value) ρ, PEval b ρ (paramDefs ⟨["f", "init", "seq"], none⟩ [f, init, l])
+      (ca "null?" [sy "seq"]) (.ok (.bool (isNil l))) := fun init l ρ =>
+    PEval.congr (PEval.call1 (k := fun v => .ok (.bool (isNil v))) (lkP 14) (procArity_libProc (i := 14) rfl)
+      (PEval.var (by rfl)) fun v _ => papp_null b v) rfl
+  intro xs
+  induction xs with
+  | nil =>
+    intro σ init hl hK hN hf env
+    have hc := InCall.of_call hl ⟨["f", "init", "seq"], none⟩ [f, init, .nil]
+    obtain ⟨σ₂, h₂, e₂⟩ := test init .nil _ _ hc.scope
+    have hc₂ := hc.ext e₂.framesExt
+    rw [libProc_fold_right]
+    refine ⟨.ok init, σ₂, ?_, .nil ((callFrame_ext ..).dExt.trans e₂.dExt), fun _ _ =>
+      hf.stable _ _ hK ((callFrame_ext ..).dExt.trans e₂.dExt), ((callFrame_ext ..).dExt.trans e₂.dExt).size⟩
+    refine Applies.closure_simple (by rfl) (TailRuns.cond_true h₂ (by simp [isNil]) ?_)
+    exact TailRuns.value (by intros; simp) (by intros; simp) (Evals.sym (hc₂.scope.var (by rfl)))
+  | cons x xs ih =>
+    intro σ init hl hK hN hf env
+    have hc := InCall.of_call hl ⟨["f", "init", "seq"], none⟩ [f, init, Value.ofList (x :: xs)]
+    have e₁ := callFrame_ext σ b ⟨["f", "init", "seq"], none⟩ [f, init, Value.ofList (x :: xs)]
+    obtain ⟨σ₂, h₂, e₂⟩ := test init (Value.ofList (x :: xs)) _ _ hc.scope
+    have hc₂ := hc.ext e₂.framesExt
+    have hcar : PEval b σ.frames.size (paramDefs ⟨["f", "init", "seq"], none⟩ [f, init, Value.ofList (x :: xs)])
+        (ca "car" [sy "seq"]) (.ok x) :=
+      PEval.congr (PEval.call1 (lkB .car) (by rfl) (PEval.var (by rfl)) fun _ _ => PApp.car) rfl
+    obtain ⟨σ₂', h₂', e₂'⟩ := hcar _ hc₂.scope
+    have hc₂' := hc₂.ext e₂'.framesExt
+    have hrec : PArgs b σ.frames.size (paramDefs ⟨["f", "init", "seq"], none⟩ [f, init, Value.ofList (x :: xs)])
+        [sy "f", sy "init", ca "cdr" [sy "seq"]] (.ok [f, init, Value.ofList xs]) :=
+      PArgs.congr (PArgs.cons (PEval.var (by rfl)) (PArgs.cons (PEval.var (by rfl))
+        (PArgs.cons (PEval.call1 (lkB .cdr) (by rfl) (PEval.var (by rfl)) fun _ _ => PApp.cdr) PArgs.nil))) rfl
+    obtain ⟨σ₃, h₃, e₃⟩ := hrec _ hc₂'.scope
+    have d₃ : σ.DExt (enter σ₃) :=
+      (((e₁.dExt.trans e₂.dExt).trans e₂'.dExt).trans e₃.dExt).trans (Store.dExt_enter σ₃)
+    obtain ⟨r₂, σ₄, happ₂, htr₂, hK₄, hsz₄⟩ := ih (enter σ₃) init (hc₂'.lib.ext (e₃.framesExt.trans (Store.framesExt_enter σ₃)))
+      (hf.stable _ _ hK d₃) (Nat.le_trans hN d₃.size)
+      (hf.mono (Nat.le_refl _) fun args ⟨y, hy, e⟩ => ⟨y, List.mem_cons_of_mem _ hy, e⟩) σ.frames.size
+    have harg2 : Evals σ₂' σ.frames.size (ca "fold-right" [sy "f", sy "init", ca "cdr" [sy "seq"]]) r₂ (leave σ₄) :=
+      Evals.call_loop (Evals.sym (hc₂'.scope.proc 20 (by rfl) (by rfl))) h₃ (procArity_libProc (i := 20) rfl)
+        (libProc_fold_right b ▸ happ₂)
+    have hop : Evals σ₂ σ.frames.size (sy "f") (.ok f) σ₂ := Evals.sym (hc₂.scope.var (by rfl))
+    rw [libProc_fold_right]
+    cases r₂ with
+    | error er =>
+      refine ⟨.error er, leave σ₄, ?_, .cons_err d₃ htr₂ (Store.dExt_leave σ₄), fun _ h => (by cases h),
+        Nat.le_trans d₃.size hsz₄⟩
+      refine Applies.closure_simple (by rfl) (TailRuns.cond_false h₂ (by simp [Value.ofList, isNil]) (TailRuns.call ?_))
+      exact .inr ⟨_, _, hop, .inl ⟨er, EvalsArgs.cons_tail_err h₂' (EvalsArgs.cons_err harg2), rfl⟩⟩
+    | ok acc =>
+      have hK₄' : K (leave σ₄) := hf.stable _ _ (hK₄ acc rfl) (Store.dExt_leave σ₄)
+      have hN₄ : N ≤ (leave σ₄).frames.size := Nat.le_trans (Nat.le_trans hN d₃.size) hsz₄
+      obtain ⟨r, σ', happ, hkeep, hK'⟩ := hf.app (leave σ₄) [x, acc] hK₄' hN₄ ⟨x, by simp, acc, rfl⟩
+      refine ⟨r, σ', ?_, .cons d₃ htr₂ (Store.dExt_leave σ₄) happ, hK',
+        Nat.le_trans (Nat.le_trans d₃.size hsz₄) hkeep.size⟩
+      refine Applies.closure_simple (by rfl) (TailRuns.cond_false h₂ (by simp [Value.ofList, isNil]) (TailRuns.call ?_))
+      exact .inr ⟨_, _, hop, .inr ⟨_, _, EvalsArgs.cons h₂' (EvalsArgs.cons harg2 EvalsArgs.nil),
+        .inr ⟨hf.proc, happ env⟩⟩⟩
+
+end hfold
+
+/-! ## 12. observing the order of the applications: the host procedure `tick` -/
+
+/-- the store after `(tick x)`: the canonical text of `x` is pushed on the trace -/
+def tickStore (σ : Store) (x : Value) : Store := { σ with ticks := Prim.canon σ 100000 x :: σ.ticks }
+
+theorem applies_tick (σ : Store) (x : Value) (env : Nat) :
+    Applies σ (.builtin .tick) [x] env (.ok x) (tickStore σ x) :=
+  Applies.builtin (by decide) (by rfl) rfl (by simp)
+
+/-- `tick` is a good procedure argument in every store (it only writes the trace) -/
+theorem procArg_tick (b N : Nat) (dom : List Value → Prop) (hd : ∀ args, dom args → args.length = 1) :
+    ProcArg b N (fun _ => True) (.builtin .tick) dom where
+  proc := rfl
+  stable _ _ _ _ := trivial
+  app σ args _ _ hdom := by
+    obtain ⟨x, rfl⟩ : ∃ x, args = [x] := by
+      match args, hd args hdom with
+      | [x], _ => exact ⟨x, rfl⟩
+    exact ⟨.ok x, tickStore σ x, fun env => applies_tick σ x env, ⟨Nat.le_refl _, fun _ _ _ => rfl⟩, fun _ _ => trivial⟩
+
+theorem canon_vecs {σ τ : Store} (h : σ.vecs = τ.vecs) (n : Nat) (v : Value) : Prim.canon σ n v = Prim.canon τ n v :=
+  (canon_congr h n v).1
+
+/-- a `map`/`for-each` traversal with `tick`: every element is returned unchanged and its text is
+pushed on the trace, first element first (the trace is most-recent-first) -/
+theorem mapM_tick {σ : Store} {xs : List Value} {r σ'} (h : MapM (AppOf (.builtin .tick)) Store.DExt σ xs r σ') :
+    r = .ok xs ∧ σ'.ticks = (xs.map (Prim.canon σ 100000)).reverse ++ σ.ticks ∧ σ'.vecs = σ.vecs := by
+  induction h with
+  | nil e => exact ⟨rfl, by simpa using e.ticks, e.vecs⟩
+  | @cons_err σ σ₁ σ₂ σ' x xs er e₁ happ e₂ =>
+    have := (Applies.unique (happ 0) (applies_tick σ₁ x 0)).1
+    cases this
+  | @cons σ σ₁ σ₂ σ₃ σ' x xs v r e₁ happ _ e₂ ih =>
+    obtain ⟨hv, hσ⟩ := Applies.unique (happ 0) (applies_tick σ₁ x 0)
+    cases hv; subst hσ
+    obtain ⟨rfl, ht, hvecs⟩ := ih
+    refine ⟨rfl, ?_, ?_⟩
+    · rw [e₂.ticks, ht]
+      have hc : ∀ y, Prim.canon (tickStore σ₁ x) 100000 y = Prim.canon σ 100000 y := fun y =>
+        canon_vecs (show (tickStore σ₁ x).vecs = σ.vecs from e₁.vecs) _ _
+      have hx : Prim.canon σ₁ 100000 x = Prim.canon σ 100000 x := canon_vecs e₁.vecs _ _
+      have hfun : Prim.canon (tickStore σ₁ x) 100000 = Prim.canon σ 100000 := funext hc
+      rw [hfun]
+      simp only [tickStore, hx, e₁.ticks, List.map_cons, List.reverse_cons, List.append_assoc,
+        List.singleton_append]
+    · rw [e₂.vecs, hvecs]; exact e₁.vecs
+
 /-! ## 8. a store with the library frame -/
 
 /-- the bindings of an instance of `(scheme base)` in frame `b`: the natives imported from
